@@ -31,6 +31,10 @@ package tsclient
 //@   on call (tsClient).do(_, _, _, _, _) ret (t, e): tried = tried + 1; lastTok = t; lastErr = e
 //@   loop 0 sig "for _, url := range urls" invariant tried == rangeindex + 1 && -1 <= rangeindex && rangeindex < len(urls) && \
 //@        (tried > 0 ==> lastErr != nil && err == lastErr) && (tried == 0 ==> err == nil)
+//@   ghost cancelled bool = false
+//@   on call invoke context.Context.Err(_) ret (e): cancelled = (e != nil)
+//@   loop 0 invariant !cancelled
+//@   ensures @gives_up_only_after_every_authority_failed ret1 != nil && len(urls) > 0 && !cancelled ==> tried == len(urls)
 //@   ensures @token_only_from_a_successful_attempt ret1 == nil ==> tried >= 1 && lastErr == nil && ret0 == lastTok
 //@   ensures @never_nil_nil ret1 != nil || ret0 != nil
 //@   ensures @all_authorities_failed_is_an_error tried >= 1 && lastErr != nil ==> ret1 != nil
